@@ -978,6 +978,12 @@ class _ExecutorManagerThread(threading.Thread):
             mp.util.debug(f"joining {len(self.processes)} processes")
             n_joined_processes = 0
             while self.processes:
+                if self.executor_flags.broken:
+                    # Workers registered after the pool was flagged as broken
+                    # (e.g. by a concurrent resize) were never asked to stop.
+                    n_joined_processes += len(self.processes)
+                    self.kill_workers(reason="broken executor")
+                    break
                 # A worker that died abruptly can leave the locks of the
                 # queues in a dirty state, in which case the other workers
                 # never read their sentinel. Join the workers as they exit
